@@ -181,14 +181,16 @@ CLAIMED = {
    ref="DESIGN.md section 0.7, C16"),
  "C17": dict(
    cat="model_checking", tech="enum-level symbolic execution of rustc MIR + SMT (z3/cvc5): the call-site rewrite in AstLowering::lower_expr and the nominal arm of TypeChecker::types_compatible",
-   text="Solver-based, TWO mechanisms of the property: (a) the call rewrite (X-lower_ctor): for `Name(args)` with Name a known struct or capitalised, when a validation hook is "
+   text="Solver-based, THREE mechanisms of the property: (a) the call rewrite (X-lower_ctor): for `Name(args)` with Name a known struct or capitalised, when a validation hook is "
         "recorded for Name, the call has exactly one positional argument and the site is not inside Name's own methods, the IR is `Name::<hook>(lowering of the argument).expect(..)` - "
         "on every path, for 0..=2 (thorough 3) arguments, with the map lookups / capitalisation / inside-own-impl answers arbitrary; otherwise a plain struct literal with the "
         "arguments in order; (b) nominal typing (X-newtype_nominal): a value of type Named(a) is accepted where Named(b) is declared iff the names are equal and never where "
-        "int / float / bool / str / bytes / None is declared (built-in frozen string/bytes names excepted), so two newtypes over one underlying type are not interchangeable.",
-   note="Kernel-only: WHICH hook is recorded (select_newtype_checked_ctor: from_underlying preferred, a single from_*), WHEN it is recorded (pre-pass), how current_impl_type is "
-        "maintained while methods are lowered, the hook's own run-time behaviour and the emission of the rewritten call are NOT covered; two of the three round-2 seeded changes "
-        "for this property (hook selection, registration pass) are outside this kernel.",
+        "int / float / bool / str / bytes / None is declared (built-in frozen string/bytes names excepted), so two newtypes over one underlying type are not interchangeable; "
+        "(c) hook selection (X-select_hook): select_newtype_checked_ctor executed on a newtype with 0..=2 (thorough 3) methods of any shape - `filter_map`, `find`, `pop` through "
+        "their closures, name tests and type equality as uninterpreted answers, answers the code never asked for left free: the recorded hook is `from_underlying` if it is a "
+        "candidate (static, from_*, takes the underlying type, returns Result[T, _]), else the only candidate, else none.",
+   note="Kernel-only: WHEN the hook is recorded (pre-pass, imported modules), how current_impl_type is "
+        "maintained while methods are lowered, the hook's own run-time behaviour and the emission of the rewritten call are NOT covered; the registration pass (round-2 seed C17-3) is outside this kernel.",
    ref="DESIGN.md section 0.5, C17"),
  "C19": dict(
    cat="model_checking", tech="bounded model checking of the compiled code (Kani/CBMC, symbolic UTF-8 document, offsets, positions)",
